@@ -256,4 +256,86 @@ theorem explainLong_none_iff (d : Decl) (n : Str) (v next : Option Str) :
       · have h3' : (noPrefix.isPrefixOf n && isTogName d (n.drop 3)) = false := by simpa using h3
         simp [h3']
 
+
+theorem explainValue_none_iff (n : Str) (sh : Bool) (v next : Option Str) :
+    explainValue n sh v next = none ↔
+      v = none ∧ (next = none ∨ ∃ nx, next = some nx ∧ isValueTok nx = false) := by
+  unfold explainValue
+  cases v with
+  | some v' => simp
+  | none =>
+    cases next with
+    | none => simp
+    | some nx => by_cases h : isValueTok nx = true <;> simp [h]
+
+/-- … and for a short token: a single letter of a value-taking option without a value; a single
+letter that is no toggle letter, or a toggle letter with `=value`; a bundle with `=value` or with a
+letter that is no toggle letter. -/
+theorem explainShort_none_iff (d : Decl) (letters : Str) (v next : Option Str) :
+    explainShort d letters v next = none ↔
+      (∃ c, letters = [c] ∧
+        ((∃ n, valueOptOfLetter d c = some n ∧ v = none ∧
+            (next = none ∨ ∃ nx, next = some nx ∧ isValueTok nx = false)) ∨
+         (valueOptOfLetter d c = none ∧ (v.isSome = true ∨ isTogLetter d c = false)))) ∨
+      ((∀ c, letters ≠ [c]) ∧ (v.isSome = true ∨ letters.all (isTogLetter d) = false)) := by
+  unfold explainShort
+  split
+  · rename_i c
+    have hright : ¬ ((∀ c', [c] ≠ [c']) ∧ (v.isSome = true ∨ [c].all (isTogLetter d) = false)) :=
+      fun ⟨h, _⟩ => h c rfl
+    cases hvl : valueOptOfLetter d c with
+    | some n =>
+      simp only
+      rw [explainValue_none_iff]
+      constructor
+      · intro h; exact Or.inl ⟨c, rfl, Or.inl ⟨n, hvl, h⟩⟩
+      · intro h
+        rcases h with ⟨c', hc', hcase⟩ | h
+        · simp only [List.cons.injEq, and_true] at hc'
+          subst hc'
+          rcases hcase with ⟨n', hn', h⟩ | ⟨hnone, _⟩
+          · exact h
+          · rw [hvl] at hnone; simp at hnone
+        · exact absurd h hright
+    | none =>
+      simp only
+      constructor
+      · intro h
+        refine Or.inl ⟨c, rfl, Or.inr ⟨hvl, ?_⟩⟩
+        cases v with
+        | some v' => simp
+        | none =>
+          by_cases ht : isTogLetter d c = true
+          · simp [ht] at h
+          · right; simpa using ht
+      · intro h
+        rcases h with ⟨c', hc', hcase⟩ | h
+        · simp only [List.cons.injEq, and_true] at hc'
+          subst hc'
+          rcases hcase with ⟨n', hn', _⟩ | ⟨_, hv | ht⟩
+          · rw [hvl] at hn'; simp at hn'
+          · cases v with
+            | none => simp at hv
+            | some v' => simp
+          · simp [ht]
+        · exact absurd h hright
+  · rename_i hnot
+    have hne : ∀ c, letters ≠ [c] := fun c hc => hnot c hc
+    constructor
+    · intro h
+      refine Or.inr ⟨hne, ?_⟩
+      cases v with
+      | some v' => simp
+      | none =>
+        by_cases ha : letters.all (isTogLetter d) = true
+        · simp [ha] at h
+        · right; simpa using ha
+    · intro h
+      rcases h with ⟨c, hc, _⟩ | ⟨_, hv | ha⟩
+      · exact absurd hc (hne c)
+      · cases v with
+        | none => simp at hv
+        | some v' => simp
+      · simp [ha]
+
 end NitroVerif.Props.C04
